@@ -102,6 +102,22 @@ PROPS["C19"] = {
     "assumptions": [],
 }
 
+PROPS["C03"] = {
+    "module": "Matreex.Props.C03", "harness": "C03",
+    "technique": "Lean 4 refinement proof: the address-level iterator machines (outer + all live inner iterators, any finite call sequence) refine a deque-of-deques of positions; abstract-level no-duplicates / exactly-once theorems; address injectivity; correspondence incl. every pointer value formed (hooks)",
+    "trusted": ["NonNull::add/sub modelled as UB outside the allocation [base, base+len*size], NonZero::new_unchecked(0) and NonNull::new_unchecked(null) as UB, as_mut as requiring a live aligned element (Model/IterMut.lean)",
+                "the machines are hand-modelled from src/iter/iter_mut.rs and tied by correspondence on yielded addresses, len() and every lower/upper value recorded by the verif-hooks recorder",
+                "Vec guarantees: base + len*size does not wrap, len <= usize::MAX (CfgOk)"],
+    "assumptions": ["Coh (C01)"],
+}
+PROPS["C06"] = {
+    "module": "Matreex.Props.C06", "harness": "C06",
+    "technique": "Lean 4 theorems for skip/step_by/take views (exact items and lengths, step_by(0) unreachable, IndexOutOfBounds exactly for invalid n) and agreement of the view positions with the positions the mutable machines of C03 hand out; correspondence over all families, shapes with a zero dimension, consumption patterns",
+    "trusted": ["slice::Iter / IterMut with skip, step_by, take and their DoubleEnded/ExactSize behaviour modelled as list functions (Model/Iter.lean)",
+                "the mutable outer families are the C03 machines"],
+    "assumptions": ["Coh, size and extents <= usize::MAX (C01)"],
+}
+
 LEVEL_TEXT = ("Machine-checked Lean 4 theorems, for all inputs the property quantifies over, about a model whose integer core is "
               "regenerated from /repo/src on every run and whose remaining structure is tied to the implementation by a differential "
               "correspondence run (same operation lines on crate and model) plus the property's own oracle on the implementation.")
